@@ -100,10 +100,15 @@ SeqsUpTo(S, n) == IF n = 0 THEN {<<>>} ELSE
                     P \cup {Append(s, x) : s \in {q \in P : Len(q) = n - 1}, x \in S}
 
 Healthy == [n |-> IF MaxFiles > 1 THEN 2 ELSE 1, rp |-> 1, fault |-> "none", fpos |-> 0, pat |-> "allU", ign |-> FALSE]
+Clean == [Healthy EXCEPT !.pat = "allF"]
+NonFailing == {s \in Shapes : s.fault \in {"none", "S", "W", "Z"} /\ ~s.ign}
 RootSeqs ==
   IF GenMode = "all" THEN SeqsUpTo(Shapes, MaxRoots) \ {<<>>}
   ELSE {<<s>> : s \in Shapes} \cup {<<s, Healthy>> : s \in Shapes}
        \cup {<<Healthy, s>> : s \in Shapes} \cup {<<Healthy, s, Healthy>> : s \in Shapes}
+       \* ... and next to a root that is already formatted (the last input decides nothing)
+       \cup {<<s, Clean>> : s \in NonFailing} \cup {<<Clean, s>> : s \in NonFailing}
+       \cup {<<s, Clean, Clean>> : s \in NonFailing}
 
 Init ==
   /\ roots \in RootSeqs
